@@ -21,6 +21,7 @@ pub const SPEC: PropSpec = PropSpec {
     rule: "cases = 1-4 links built by real transitions (linkgen specs: phase, receive age vs timeout, in-flight, queued, window, proof age, RTT baseline, weak / loss flags, CC target vs measured bitrate, NAK ages 0..40 s and bursts, connection age across 30 s) followed by 2-10 monitored enhanced selects with small state changes in between (sends, ACKs, NAKs, heard, clock steps 0/1/49/50/..., previous index = last result / arbitrary / out of range), quality on or off. For every call an independent oracle recomputes candidate set, unconstrained flag, scored set, base score, phase weight (0.8 warming), gate (0.02) and - from those and the observed quality / soft-cap factors - every score and the hysteresis decision; the traced factors must equal the oracle's, be finite and in range, the result must be the oracle's, and the same call repeated at once must return the same index. Non-trivial = >= 2 scored links; distinct = distinct (per-link gate bits, who was last, hysteresis outcome, result) vectors.",
     assumptions: &[
         "float comparisons use a 1e-9 relative tolerance; decisions within that tolerance of the 1.10 threshold or of a tie accept either outcome",
+        "F1 (added after seeded defect C11b): 'its score' is read as a score of the link's present state - the quality factor used must lie within what the implementation's OWN calculate_quality_multiplier returns for this link over the last 1000 ms (20x the documented 50 ms cache interval), checked only when the link's NAK / RTT / establishment inputs have been constant for that long; the formula is not judged, only unbounded staleness",
         "the quality multiplier and the soft-cap factor are taken as observed (score-trace hook) and only held to their stated ranges, because the property bounds them without fixing their formulas; agreement with the documented formulas (30 s grace 1.1/0.98, 1-0.5*exp(-age/2000), burst x0.7, RTT bonus <= 1.03, 50 ms cache; headroom/target clamp) is reported under observed.info.* as information, never as a verdict",
         "'over its in-flight cap' is the implementation's own in_flight_cap_exceeded(); the documented BDP formula is compared as information only",
     ],
@@ -43,6 +44,8 @@ pub const SPEC: PropSpec = PropSpec {
         ("quality.burst_penalty", 1_000, 40_000),
         ("quality.grace_period", 5_000, 200_000),
         ("stability.repeats", 300_000, 10_000_000),
+        ("F1.freshness_checked", 100_000, 2_000_000),
+        ("F1.freshness_checked_against_window", 100, 2_000),
         ("ties.equal_best_scores", 1_000, 40_000),
     ],
 };
@@ -111,6 +114,22 @@ struct Case {
     conns: Vec<SrtlaConnection>,
     cache: Vec<Cache>,
     seq: i32,
+    /// per link: the quality-relevant state (NAK count / burst / last NAK time, smoothed RTT, establishment
+    /// time) as seen at the previous monitored call, and the time since which it has not changed
+    qstate: Vec<Option<([u64; 5], u64)>>,
+}
+
+/// Staleness the freshness check F1 tolerates: 20x the documented 50 ms cache interval.
+const QUALITY_FRESHNESS_WINDOW_MS: u64 = 1000;
+
+fn quality_state(c: &SrtlaConnection, now: u64) -> [u64; 5] {
+    [
+        c.total_nak_count() as u64,
+        c.nak_burst_count() as u64,
+        c.time_since_last_nak_ms(now).map(|a| now.saturating_sub(a)).unwrap_or(u64::MAX),
+        c.get_smooth_rtt_ms().to_bits(),
+        c.connection_established_ms(),
+    ]
 }
 
 #[allow(clippy::too_many_arguments)]
@@ -193,6 +212,41 @@ fn monitored_call(cs: &mut Case, last: Option<usize>, now: u64, cfg: &srtla_core
                     && !(0.35 - 1e-12..=1.1 * 1.03 + 1e-12).contains(&qx)
                 {
                     rep.violation("C11.factor.quality-out-of-range", format!("now={now} link {i}: quality multiplier {qx} outside [0.35, 1.133]"));
+                }
+                // F1 freshness: "its score" is a score of the link's present state. The factor the
+                // scheduler used must be the implementation's OWN quality function evaluated on this link
+                // at some instant of the last second, provided the link's quality-relevant state has not
+                // changed for that long (so only the clock differs). The formula itself is not judged.
+                {
+                    let st = quality_state(c, now);
+                    let since = match cs.qstate[i] {
+                        Some((prev, since)) if prev == st => since,
+                        _ => now,
+                    };
+                    cs.qstate[i] = Some((st, since));
+                    if let Some(qx) = f.quality
+                        && now.saturating_sub(since) >= QUALITY_FRESHNESS_WINDOW_MS
+                    {
+                        rep.count("F1.freshness_checked");
+                        let fresh = srtla_core::selection::calculate_quality_multiplier(c, now);
+                        if !rel_eq(qx, fresh) {
+                            let (mut lo, mut hi) = (fresh, fresh);
+                            let mut tq = now - QUALITY_FRESHNESS_WINDOW_MS;
+                            while tq < now {
+                                let v = srtla_core::selection::calculate_quality_multiplier(c, tq);
+                                lo = lo.min(v);
+                                hi = hi.max(v);
+                                tq += 1; // every integer millisecond: exact, the clock has ms granularity
+                            }
+                            rep.count("F1.freshness_checked_against_window");
+                            if qx < lo - 1e-9 || qx > hi + 1e-9 {
+                                rep.violation(
+                                    "C11.quality.stale-beyond-1s",
+                                    format!("now={now} link {i}: the scheduler scored this link with quality factor {qx}, but its own quality function gives {fresh} now and stays within [{lo}, {hi}] over the last {QUALITY_FRESHNESS_WINDOW_MS} ms, during which the link's NAK / RTT / age inputs did not change (unchanged since t={since})"),
+                                );
+                            }
+                        }
+                    }
                 }
                 if !(0.1..=1.0).contains(&f.soft_cap) {
                     rep.violation("C11.factor.softcap-out-of-range", format!("now={now} link {i}: soft-cap factor {} outside [0.1, 1]", f.soft_cap));
@@ -374,7 +428,17 @@ pub fn run_case(rng: &mut Rng, rep: &mut Report) {
         }
     }
     let conns: Vec<SrtlaConnection> = specs.iter().enumerate().map(|(i, s)| linkgen::build_link(i, s, now0)).collect();
-    let mut cs = Case { cache: vec![Cache { mult: 1.0, at: 0 }; n], conns, seq: 9_000_000 };
+    let mut conns = conns;
+    // some links sit just before the 30 s grace boundary, so that the case crosses it
+    let long_steps = rng.chance(1, 3);
+    if long_steps {
+        for c in conns.iter_mut() {
+            if rng.chance(1, 2) {
+                c.reconnection.connection_established_ms = now0.saturating_sub(26_000 + rng.below(5_000));
+            }
+        }
+    }
+    let mut cs = Case { cache: vec![Cache { mult: 1.0, at: 0 }; n], conns, seq: 9_000_000, qstate: vec![None; n] };
     let classic = false;
     let mut now = now0;
     let mut last: Option<usize> = match rng.below(4) {
@@ -419,6 +483,11 @@ pub fn run_case(rng: &mut Rng, rep: &mut Report) {
                         c.last_received = Some(now);
                     }
                 }
+                4 if long_steps && rng.chance(1, 2) => {
+                    // an RTT sample moves the smoothed RTT (and with it the quality bonus)
+                    let ms = *rng.pick(&[20u64, 60, 120, 180, 199, 250, 600]);
+                    c.rtt.update_estimate(ms, now);
+                }
                 4 => c.weak = !c.weak,
                 5 => c.loss_degraded = !c.loss_degraded,
                 6 => {
@@ -429,7 +498,7 @@ pub fn run_case(rng: &mut Rng, rep: &mut Report) {
                 _ => c.window = (c.window + *rng.pick(&[-100, 1, 29, 30])).clamp(1000, 60_000),
             }
         }
-        now += *rng.pick(&[0u64, 0, 1, 10, 49, 50, 51, 200, 1000]);
+        now += if long_steps { *rng.pick(&[0u64, 50, 400, 1000, 1200, 2500, 4000]) } else { *rng.pick(&[0u64, 0, 1, 10, 49, 50, 51, 200, 1000]) };
     }
     if rep.wants_sample() && n >= 2 {
         rep.sample(serde_json::json!({"config": format!("{cfg:?}"), "links": specs.iter().map(|s| format!("{s:?}")).collect::<Vec<_>>(), "monitored_calls": calls}));
